@@ -85,6 +85,22 @@ def dotted(expr):
     return None
 
 
+class _CanonicalUpdates(ast.NodeTransformer):
+    """One spelling for "update in place by a number":  T = T + k  /  T = T - k  (k a numeric literal, T a name,
+    attribute or subscript) is read as  T += k  /  T -= k.  Positions are kept, so reports still point at the line."""
+
+    def visit_Assign(self, node):
+        self.generic_visit(node)
+        v = node.value
+        if len(node.targets) == 1 and isinstance(node.targets[0], (ast.Name, ast.Attribute, ast.Subscript)) and \
+                isinstance(v, ast.BinOp) and isinstance(v.op, (ast.Add, ast.Sub)) and \
+                isinstance(v.right, ast.Constant) and isinstance(v.right.value, (int, float)) and \
+                not isinstance(v.right.value, bool) and ast.unparse(v.left) == ast.unparse(node.targets[0]):
+            new = ast.AugAssign(node.targets[0], v.op, v.right)
+            return ast.copy_location(new, node)
+        return node
+
+
 class ModuleInfo:
     def __init__(self, name, relpath, source, tree):
         self.name, self.relpath, self.source, self.tree = name, relpath, source, tree
@@ -344,6 +360,7 @@ class Model:
                 tree = ast.parse(src, filename=rel)
             except SyntaxError as e:
                 raise AnalysisError('cannot parse %s: %s' % (rel, e))
+            tree = _CanonicalUpdates().visit(tree)
             name = rel[len(PKG) + 1:-3].replace('/', '.')
             if name.endswith('.__init__'):
                 name = name[:-9]
